@@ -387,3 +387,107 @@ def render_B(B):
         out += f"end module {bm['name']}\n"
         files[f"src/b{i}.f90"] = out
     return files
+
+
+# ---------------------------------------------------------------- descriptions (modules.json) and their mutations
+
+def small_description(rng):
+    """a hand-made description in the shape FORD writes"""
+    def var(n, page):
+        return {"name": n, "external_url": f"./{page}#variable-{n.lower()}", "obj": "variable", "vartype": "integer",
+                "permission": "public", "attribs": []}
+
+    def proc(n, kind):
+        return {"name": n, "external_url": f"./proc/{n.lower()}.html", "obj": "proc", "proctype": kind,
+                "functions": [], "subroutines": [], "interfaces": [], "absinterfaces": [], "types": [],
+                "variables": [], "permission": "public", "attribs": []}
+    mods = []
+    for mn in rng.sample(MOD_NAMES, k=rng.choice([1, 2])):
+        page = f"module/{mn.lower()}.html"
+        procs = [proc(n, rng.choice(["Function", "Subroutine"])) for n in rng.sample(PROC_NAMES[:5], k=rng.choice([0, 1, 2]))]
+        tys = []
+        for tn in rng.sample(TYPE_NAMES[:3], k=rng.choice([0, 1])):
+            tp = f"type/{tn.lower()}.html"
+            tys.append({"name": tn, "external_url": f"./{tp}", "obj": "type",
+                        "variables": [var(c, tp) for c in rng.sample(COMP_NAMES, k=rng.choice([0, 1, 2]))],
+                        "boundprocs": [{"name": b, "external_url": f"./{tp}#boundprocedure-{b.lower()}",
+                                        "obj": "boundprocedure", "permission": "public", "deferred": "False",
+                                        "generic": "False", "attribs": []}
+                                       for b in rng.sample(BOUND_NAMES, k=rng.choice([0, 1]))],
+                        "permission": "public", "attribs": []})
+        gens = [{"name": g, "external_url": f"./interface/{g.lower()}.html", "obj": "interface",
+                 "proctype": "Interface", "functions": [], "subroutines": [], "variables": [],
+                 "permission": "public", "generic": "True"} for g in rng.sample(GEN_NAMES[:2], k=rng.choice([0, 1]))]
+        vs = [var(v, page) for v in rng.sample(VAR_NAMES[:4], k=rng.choice([0, 1, 2]))]
+        mods.append({"name": mn, "external_url": f"./{page}", "obj": "module",
+                     "pub_procs": {p["name"].lower(): copy_json(p) for p in procs + gens},
+                     "pub_absints": {}, "pub_types": {t["name"].lower(): copy_json(t) for t in tys},
+                     "pub_vars": {v["name"].lower(): copy_json(v) for v in vs},
+                     "functions": [p for p in procs if p["proctype"] == "Function"],
+                     "subroutines": [p for p in procs if p["proctype"] == "Subroutine"],
+                     "interfaces": gens, "absinterfaces": [], "types": tys, "variables": vs,
+                     "permission": "public"})
+    return {"ford-metadata": {"version": "0"}, "modules": mods}
+
+
+def copy_json(j):
+    import json
+    return json.loads(json.dumps(j))
+
+
+def entity_nodes(j, path=()):
+    """paths of all dicts that look like entity descriptions"""
+    if isinstance(j, dict):
+        if "name" in j or "obj" in j:
+            yield path
+        for k, v in j.items():
+            yield from entity_nodes(v, path + (k,))
+    elif isinstance(j, list):
+        for i, v in enumerate(j):
+            yield from entity_nodes(v, path + (i,))
+
+
+def get_at(j, path):
+    for p in path:
+        j = j[p]
+    return j
+
+
+JUNK = [None, 0, 3, "", "text", [], [1], {}, {"k": "v"}, True, False, ["ford-metadata"]]
+URLS = ["", "./proc/x.html", "proc/y.html", "z.html", "/abs/p.html", "./type/t.html#variable-q", None, 0, 7, [], ["u"]]
+OBJS = ["module", "MODULE", "type", "Type", "variable", "function", "subroutine", "boundprocedure", "interface",
+        "proc", "program", "", None, 4, []]
+
+
+def mutate_description(rng, j):
+    """one random mutation; returns a new JSON value"""
+    j = copy_json(j)
+    r = rng.random()
+    if r < 0.12:
+        return rng.choice([None, 5, "plain", "has ford-metadata inside", [], {}, ["ford-metadata"], {"ford-metadata": {}},
+                           {"ford-metadata": {}, "modules": rng.choice([None, 3, "abc", {}, {"a": 1}])},
+                           j.get("modules", []) if isinstance(j, dict) else j,
+                           {"modules": j.get("modules", [])} if isinstance(j, dict) else j,
+                           [None], [3], ["str"], [[]], [{}]])
+    nodes = list(entity_nodes(j))
+    if not nodes:
+        return j
+    node = get_at(j, rng.choice(nodes))
+    r = rng.random()
+    if r < 0.3:
+        k = rng.choice(["name", "external_url", "obj", "proctype"] + list(node.keys()))
+        node.pop(k, None)
+    elif r < 0.45:
+        node["external_url"] = rng.choice(URLS)
+    elif r < 0.6:
+        if rng.random() < 0.5:
+            node["obj"] = rng.choice(OBJS)
+        else:
+            node["proctype"] = rng.choice(OBJS + ["Function", "Subroutine", "Interface"])
+    elif r < 0.9:
+        k = rng.choice(["pub_procs", "pub_types", "pub_vars", "functions", "subroutines", "types", "variables",
+                        "boundprocs", "permission", "attribs", "interfaces", "absinterfaces", "generic"])
+        node[k] = rng.choice(JUNK + [[node.get("name", "x")], {"a": "b"}, [{"name": "n"}], ["s", None, 0]])
+    else:
+        node["name"] = rng.choice(["Other", "init", None, 3, []])
+    return j
